@@ -839,7 +839,7 @@ def _container_tokens(lib, b, is_object, style, k, null_variant):
 
 
 def _container_shape(r, lib, b, is_object):
-    """Derive the token stream of the container printers for 0..3 elements in each style and compare with the
+    """Derive the token stream of the container printers for 0..6 (thorough: 0..12) elements in each style and compare with the
     JSON grammar (style-dependent whitespace included); then the provenance of key, value and depth."""
     import re
     nm = b.name.rsplit("::", 1)[-1]
@@ -848,7 +848,7 @@ def _container_shape(r, lib, b, is_object):
     for style in STYLES:
         sp = "" if style == "Consise" else " "
         member = ("IK:" + sp + "V") if is_object else "IV"
-        for k in (range(0, 7) if common.TIER == "thorough" else (0, 1, 2, 3)):
+        for k in (range(0, 13) if common.TIER == "thorough" else range(0, 7)):
             key = "%s/grammar[%s,%d]" % (nm, style, k)
             toks, why = _container_tokens(lib, b, is_object, style, k, nullv)
             if toks is None:
@@ -1551,7 +1551,7 @@ def text_rows(rep, lib):
                  "being the printer's own rendering of that list element (quoting applied); header and data rows "
                  "go through the same print_list; nothing reaches the output that did not pass the printer; the "
                  "header-less error is raised before any write", floor=8,
-                 analysis="A5 partial evaluation of print_list for 1..3 fields (token grammar) + A4 provenance "
+                 analysis="A5 partial evaluation of print_list for 1..6 (thorough: 1..12) fields (token grammar) + A4 provenance "
                           "classification of every write in TextProcess + A1 callers + A2 dominance")
     pl = lib.bodies.get(TPRO + "::print_list")
     st = lib.bodies.get("<%s as processor::Process>::start" % TPRO)
@@ -1584,7 +1584,7 @@ def text_rows(rep, lib):
         pr = Prov(pl, common.LOOK + ("Deref>::deref", "DerefMut>::deref_mut", "RefCell::<T>::borrow_mut") + BYTES_OF)
         prints = _printer_buffers(pl, pr)
         enumerated = "Option<(usize," in nxt[0].dest.get("ty", "").replace(" ", "")
-        for k in (range(1, 7) if common.TIER == "thorough" else (1, 2, 3)):
+        for k in (range(1, 13) if common.TIER == "thorough" else range(1, 7)):
             selfv = [None] * nfields
             selfv[li] = ("i", k)
             toks = []
